@@ -76,40 +76,84 @@ theorem check_complete (l : IMAP) (existing new : Int) (uid : Nat) (he : 0 ≤ e
 
 /-! ## check, then insert -/
 
-/-- **Limits invariant, under the named hypotheses `NoImplicitParents` and `ChecksInsideTx`** — for
+/-- **Limits invariant, under the named hypotheses `NoRenameParents` and `ChecksInsideTx`** — for
     every constructible limit configuration, every world within the limits with no check in
-    flight, and every history of CREATE, in-transaction adds (connector batches, COPY / MOVE — also
+    flight, and every history of CREATE (with any number of missing superiors: `State.Create` checks the
+    limit for all the mailboxes it is about to create), RENAME (`renameParents`: its missing superiors
+    are created without a check — hence the hypothesis, for RENAME only), in-transaction adds (connector batches, COPY / MOVE — also
     onto a destination that already holds `k` of the messages: `replaceTx k n`),
     out-of-transaction check + insert pairs (APPEND), removals and mailbox deletions: *every*
     state the history passes through keeps the number of mailboxes, the number of messages and
     UIDNEXT within the configured maxima. -/
 theorem limits_invariant_partial (l : IMAP) (hl : U32Limits l) (w : World) (hw : Within l w)
     (hpass : w.passed = []) (evs : List Ev)
-    (hNoImplicitParents : NoImplicitParents evs) (hChecksInsideTx : ChecksInsideTx evs)
+    (hNoRenameParents : NoRenameParents evs) (hChecksInsideTx : ChecksInsideTx evs)
     (hint : EvsInt64 evs) :
     ∀ w' ∈ trace l evs w, Within l w' :=
-  trace_within l hl evs none w ⟨hw, hpass⟩ hNoImplicitParents hChecksInsideTx hint
+  trace_within l hl evs none w ⟨hw, hpass⟩ hNoRenameParents hChecksInsideTx hint
 
-/-- **`NoImplicitParents` is needed** (DESIGN §9 #11, replayed on the real server) — limit 4,
-    three mailboxes present, `CREATE p/q/r/s` (three missing superiors): the single check sees
-    3 < 4 and four mailboxes are created: 7.  The history satisfies `ChecksInsideTx`. -/
-theorem create_parents_witness :
+/-- **CREATE keeps the mailbox limit, implicit parents included** — no hypothesis on the history, the
+    limits or the number of missing superiors: from a world within the limits a CREATE leaves a world
+    within the limits. -/
+theorem create_within (l : IMAP) (w : World) (hw : Within l w) (parents : Nat) :
+    Within l (step l w (.create parents)) := by
+  simp only [step]
+  split
+  · rename_i hck
+    simp only [Bool.and_eq_true, Option.isNone_iff_eq_none, checkMailBoxCount] at hck
+    obtain ⟨_, hck2⟩ := hck
+    unfold Within at hw ⊢
+    simp only [Int.natCast_add]
+    split at hck2
+    · simp at hck2
+    · simp only [Int.cast_ofNat_Int]
+      omega
+  · exact hw
+
+/-- **CREATE is accepted exactly when everything it creates fits** — the named mailbox and its
+    `parents` missing superiors are created iff `mailboxes + parents + 1 ≤ maxMailboxCount`; otherwise
+    the world is exactly what it was (nothing created: a refusal has no partial effect). -/
+theorem create_applied_iff_fits (l : IMAP) (w : World) (parents : Nat) :
+    step l w (.create parents) =
+      if (w.mailboxes : Int) + parents + 1 ≤ l.maxMailboxCount then { w with mailboxes := w.mailboxes + parents + 1 }
+      else w := by
+  simp only [step, checkMailBoxCount]
+  by_cases h : (w.mailboxes : Int) + parents + 1 ≤ l.maxMailboxCount
+  · have h1 : ¬ ((w.mailboxes : Int) ≥ l.maxMailboxCount) := by omega
+    have h2 : ¬ ((w.mailboxes : Int) + ((parents : Int) + 1) - 1 ≥ l.maxMailboxCount) := by omega
+    simp [h, h1, h2]
+  · have h2 : (w.mailboxes : Int) + ((parents : Int) + 1) - 1 ≥ l.maxMailboxCount := by omega
+    simp [h, h2]
+
+/-- **The former defect, now refused** (was `create_parents_witness`: DESIGN §9 #11) — limit 4, three
+    mailboxes present, `CREATE p/q/r/s` (three missing superiors): the first check sees 3 < 4, the
+    second 3 + 4 - 1 = 6 ≥ 4: refused, nothing is created. -/
+theorem create_parents_refused_example :
     let l := newIMAPLimits 4 100 100 100
     let w : World := { mailboxes := 3, count := 0, uidNext := 1, passed := [] }
-    Within l w ∧ ChecksInsideTx [.create 3] ∧
-      (runEvs l [.create 3] w).mailboxes = 7 ∧ ¬ Within l (runEvs l [.create 3] w) := by
+    Within l w ∧ runEvs l [.create 3] w = w ∧ (runEvs l [.create 0] w).mailboxes = 4 := by
+  refine ⟨by decide, by decide, by decide⟩
+
+/-- **`NoRenameParents` is needed** — limit 4, three mailboxes present (one of them `a`),
+    `RENAME a p/q/r/s` (three missing superiors of the new name): `State.Rename` creates them with no
+    limit check: 6.  The history satisfies `ChecksInsideTx`. -/
+theorem rename_parents_witness :
+    let l := newIMAPLimits 4 100 100 100
+    let w : World := { mailboxes := 3, count := 0, uidNext := 1, passed := [] }
+    Within l w ∧ ChecksInsideTx [.renameParents 3] ∧
+      (runEvs l [.renameParents 3] w).mailboxes = 6 ∧ ¬ Within l (runEvs l [.renameParents 3] w) := by
   refine ⟨by decide, by simp [ChecksInsideTx, CheckThenInsert], by decide, by decide⟩
 
 /-- **`ChecksInsideTx` is needed** — message limit 1, empty mailbox, two sessions APPEND at the
     same time with the schedule check₁ check₂ insert₁ insert₂: both checks see 0 + 1 ≤ 1 and both
-    inserts happen: 2 messages.  The history satisfies `NoImplicitParents`. -/
+    inserts happen: 2 messages.  The history satisfies `NoRenameParents`. -/
 theorem append_race_witness :
     let l := newIMAPLimits 10 1 100 100
     let w : World := { mailboxes := 1, count := 0, uidNext := 1, passed := [] }
     let evs : List Ev := [.check 1 1, .check 2 1, .insert 1, .insert 2]
-    Within l w ∧ NoImplicitParents evs ∧ ¬ ChecksInsideTx evs ∧
+    Within l w ∧ NoRenameParents evs ∧ ¬ ChecksInsideTx evs ∧
       (runEvs l evs w).count = 2 ∧ ¬ Within l (runEvs l evs w) := by
-  refine ⟨by decide, by simp [NoImplicitParents], by simp [ChecksInsideTx, CheckThenInsert], by decide, by decide⟩
+  refine ⟨by decide, by simp [NoRenameParents], by simp [ChecksInsideTx, CheckThenInsert], by decide, by decide⟩
 
 /-! ## COPY / MOVE onto a destination that already holds some of the messages -/
 
@@ -245,12 +289,16 @@ example :
     2. the only count / UID checks evaluated on values read *outside* a write transaction are the
        two in `Mailbox.AppendRegular` — so `ChecksInsideTx` is not guaranteed for APPEND and is
        guaranteed by construction for every other checked path;
-    3. `State.Create` checks the bare mailbox count once, outside the loop that creates the
-       missing superiors and the named mailbox — so `NoImplicitParents` is not guaranteed;
+    3. `State.Create` reads the mailbox count, checks it bare (room for one more), builds the list of the
+       missing superiors and the named mailbox, and — after the last `append` to that list and before
+       the loop over it, the only place `actionCreateMailbox` (which tells the connector) is called —
+       checks `count + len(list) - 1` (room for all of them): the `create` step of the model, with no
+       hypothesis about implicit parents (`create_within`, `create_applied_iff_fits`);
     4. the functions that insert a mailbox or a message with no check of their own are exactly
        these five (`actionCreateMailbox` is covered once per CREATE by `State.Create`,
        `actionCreateMessage` by `AppendRegular`'s outside check; `Rename`'s superiors,
-       `renameInbox`'s new mailbox and the recovery mailbox are not covered by any check). -/
+       `renameInbox`'s new mailbox and the recovery mailbox are not covered by any check:
+       `NoRenameParents`, `rename_parents_witness`). -/
 theorem limit_sites_today :
     (∀ s ∈ Facts.limitCheckSites, s.ctx ≠ "unknown") ∧
     ((Facts.limitCheckSites.filter (fun s => s.ctx == "read")).map (fun s => (s.func, s.method))
@@ -258,7 +306,9 @@ theorem limit_sites_today :
     (∀ s ∈ Facts.limitCheckSites, s.method ≠ "CheckUIDValidity" → s.ctx ≠ "read" →
         s.ctx = "tx" ∨ s.ctx = "tx-field") ∧
     Facts.stateCreateShape =
-      { found := true, checkCalls := 1, checkArgBare := some true, createInLoop := some true, checkInLoop := some false } ∧
+      { found := true, checkCalls := 2, countVar := "mailboxCount", loopOver := "mboxesToCreate", bareChecks := 1,
+        wholeListChecks := 1, wholeCheckAfterListBeforeLoop := some true, createsOutsideLoop := 0,
+        createsBeforeWholeCheck := 0, createInLoop := some true, checkInLoop := some false } ∧
     ((Facts.limitInsertSites.filter (fun s => !s.localCheck)).map (·.func)
         = ["State.actionCreateAndGetMailbox", "State.actionCreateMailbox", "State.actionCreateMessage",
            "State.actionCreateRecoveredMessage", "State.Rename"]) := by
@@ -268,7 +318,9 @@ theorem limit_sites_today :
     1. every `Check*` is called on the configured limits — a `….imapLimits` field (set from
        `gluon.WithIMAPLimits`) or a `limits.IMAP` parameter handed down (item 4) — never on
        `limits.DefaultLimits()` or a local value;
-    2. the quantity of every message-count / UID check is the literal 1 (APPEND) or `len` of a slice
+    2. the quantity of every mailbox-count check is "one more" (a bare count) or, in `State.Create`,
+       "`len` of the list more" — `State.Create` has exactly these two, the second on the list its
+       creating loop ranges over (`stateCreateShape.loopOver`); the quantity of every message-count / UID check is the literal 1 (APPEND) or `len` of a slice
        parameter of the function, and that very slice is what the function then inserts
        (`tx.AddMessagesToMailbox(…, p)`): no check on a discounted or otherwise derived number
        (cf. `uid_check_counts_duplicates_witness`); an unknown shape fails here;
@@ -282,7 +334,12 @@ theorem limit_sites_today :
        (`replace_refused_unchanged` is the model's statement of that). -/
 theorem limit_quantities_today :
     (∀ s ∈ Facts.limitCheckSites, s.limitsKind = "configured" ∨ s.limitsKind = "param") ∧
-    ((∀ s ∈ Facts.limitCheckSites, s.quantity = "n/a" ∨ s.quantity = "one" ∨ s.quantity = "len-of-param") ∧
+    ((∀ s ∈ Facts.limitCheckSites, (s.quantity = "n/a" ∧ s.method = "CheckUIDValidity") ∨
+          (s.quantity = "one-more" ∧ s.method = "CheckMailBoxCount") ∨ s.quantity = "one" ∨ s.quantity = "len-of-param" ∨
+          (s.quantity = "len-of-list-more" ∧ s.func = "State.Create")) ∧
+      ((Facts.limitCheckSites.filter (fun s => s.func == "State.Create" && s.method == "CheckMailBoxCount")).map
+          (fun s => (s.quantity, s.quantityOf, s.ctx))
+        = [("one-more", "", "tx"), ("len-of-list-more", Facts.stateCreateShape.loopOver, "tx")]) ∧
       (Facts.limitCheckSites.all fun s => s.quantity != "len-of-param" ||
         Facts.limitInsertSites.any fun i => i.func == s.func && i.kind == "message" && i.what == s.quantityOf) = true) ∧
     ((Facts.limitArgSites.filter (fun a => a.callee == "state.AddMessagesToMailbox" || a.callee == "state.MoveMessagesFromMailbox")).map (·.func)
@@ -330,12 +387,12 @@ example :
 -- non-vacuity of `limits_invariant_partial`: a history that satisfies all hypotheses and fills the
 -- mailbox exactly to its limit, then is refused
 example :
-    let l := newIMAPLimits 2 3 100 100
+    let l := newIMAPLimits 3 3 100 100
     let w : World := { mailboxes := 1, count := 0, uidNext := 1, passed := [] }
-    let evs : List Ev := [.create 0, .create 0, .addTx 2, .check 7 1, .insert 7, .addTx 1, .remove 1, .addTx 1, .replaceTx 2 2]
-    U32Limits l ∧ Within l w ∧ NoImplicitParents evs ∧ ChecksInsideTx evs ∧ EvsInt64 evs ∧
-      runEvs l evs w = { mailboxes := 2, count := 3, uidNext := 7, passed := [] } := by
-  refine ⟨by decide, by decide, by simp [NoImplicitParents], by simp [ChecksInsideTx, CheckThenInsert],
+    let evs : List Ev := [.create 1, .create 0, .renameParents 0, .addTx 2, .check 7 1, .insert 7, .addTx 1, .remove 1, .addTx 1, .replaceTx 2 2]
+    U32Limits l ∧ Within l w ∧ NoRenameParents evs ∧ ChecksInsideTx evs ∧ EvsInt64 evs ∧
+      runEvs l evs w = { mailboxes := 3, count := 3, uidNext := 7, passed := [] } := by
+  refine ⟨by decide, by decide, by simp [NoRenameParents], by simp [ChecksInsideTx, CheckThenInsert],
     by simp [EvsInt64], by decide⟩
 
 end Gluon.C17
